@@ -58,8 +58,14 @@ def run_verus_for(pid, u, repo, tier):
         res["status"] = "undecided"; res["reason"] = f"labelled obligations lost from the generated file: {missing}"
         return res
     failed_mine, failed_other, failed_unlabelled = [], [], []
+    # an [AUX:..] obligation (the bundle that repeats the labelled clauses) is implied by them: it only counts when it fails alone
+    labelled_fns = set((e.get("impl"), e.get("fn")) for e in r.failed if any(ps != ("AUX",) for ps, _ in e["labels"]))
     for e in r.failed:
-        labs = e["labels"]
+        labs = [l for l in e["labels"] if l[0] != ("AUX",)]
+        if not labs and e["labels"]:
+            if (e.get("impl"), e.get("fn")) in labelled_fns:
+                continue
+            e = dict(e); e["labels"] = []
         if pid == "C12" and e.get("panic_in_real_code"):
             e = dict(e); e["labels"] = [(("C12",), "no_panic")]
             failed_mine.append(e)
@@ -89,7 +95,8 @@ def run_verus_for(pid, u, repo, tier):
         res["status"] = "violation"
         for e in failed_mine:
             names = [n for ps, n in e["labels"] if pid in ps]
-            key = f"verus:{u['unit']}:{'+'.join(names)}:{e.get('fn')}"
+            short_impl = re.sub(r"[^A-Za-z0-9]+", "_", (e.get("impl") or "").split(" for ")[-1])[:40].strip("_")
+            key = f"verus:{u['unit']}:{'+'.join(names)}:{short_impl or e.get('fn')}"
             res["violations"].append({
                 "key": key,
                 "desc": f"{e['message']} -- obligation [{','.join(names)}] in fn {e.get('fn')} ({e.get('impl')})",
